@@ -200,6 +200,10 @@ def load_kernels(repo: Repo) -> Dict[str, Kernel]:
                     if len(s) != npar:
                         raise AnalysisError(f"signature arity != parameter count in {m.rel}:{fn.name}")
             if fn.name in out:
+                if k.inlined or out[fn.name].inlined:      # adopted copy of an imported helper (sa/canon.py): one entry is enough
+                    if out[fn.name].inlined and not k.inlined:
+                        out[fn.name] = k
+                    continue
                 raise AnalysisError(f"duplicate kernel name {fn.name}")
             out[fn.name] = k
     return out
